@@ -112,6 +112,7 @@ def run_pool(prop, cases, jobs, deadline, env=None, progress=True, stop_after_vi
     for c in cases:
         q.put(c)
     results = []
+    tally = {"viol": 0, "inc": 0}
     lock = threading.Lock()
     stop = threading.Event()
     t0 = time.time()
@@ -133,13 +134,15 @@ def run_pool(prop, cases, jobs, deadline, env=None, progress=True, stop_after_vi
             with lock:
                 results.append(r)
                 # only violations that are not open known findings count towards the early stop
-                if stop_after_viol and sum(1 for x in results if (counts(x) if counts else x.get("viol"))) >= stop_after_viol:
+                if counts(r) if counts else r.get("viol"):
+                    tally["viol"] += 1
+                if r.get("inconclusive"):
+                    tally["inc"] += 1
+                if stop_after_viol and tally["viol"] >= stop_after_viol:
                     stop.set()
                 # a run drowning in aborted cases is inconclusive whatever follows
-                if len(results) >= 400 and len(results) % 50 == 0:
-                    ninc = sum(1 for x in results if x.get("inconclusive"))
-                    if ninc >= 150 and ninc > 0.3 * len(results):
-                        stop.set()
+                if len(results) >= 400 and tally["inc"] >= 150 and tally["inc"] > 0.3 * len(results):
+                    stop.set()
                 if progress and os.environ.get("VERIF_PROGRESS") and len(results) % 200 == 0:
                     print(f"  .. {len(results)}/{len(cases)} cases, {time.time() - t0:.0f}s", file=sys.stderr, flush=True)
         w.close()
